@@ -164,4 +164,3 @@ func zzScopeShadowing(exact bool) {
 	}
 	zz.Reach("end")
 }
-
